@@ -3,7 +3,7 @@
    cancelled / purged". (That an accepted job does run is progress: C03; identity of ID and
    data is checked by the monitors and, for stored jobs, by C12.) Model coq/SliceJob.v. *)
 From Coq Require Import List Arith.
-From VQ Require Import SliceJob SliceJobProofs.
+From VQ Require Import SliceJob SliceJobProofs SliceWake SliceWakeProofs.
 Import ListNotations.
 
 (* The worker function is entered at most once per job, in every schedule, with any number
@@ -19,6 +19,20 @@ Theorem C01_cancelled_never_runs :
                   starts s' = 0 /\ cancelledBeforeStart s' = true.
 Proof. exact cancelled_never_runs. Qed.
 Print Assumptions C01_cancelled_never_runs.
+
+(* "Every accepted job runs": the submission that makes work dispatchable is announced to the
+   event loop (coq/SliceWake.v) — whenever the loop is parked while the worker is running, has a
+   free slot and something is pending, a signal is buffered or some thread still owes one; and at
+   rest nothing dispatchable is left. (The same statements as C03, which decides progress.) *)
+Theorem C01_accepted_job_is_announced :
+  forall s, KReachable s -> kparked s = true -> guard s = true -> ksig s = true \/ kowed s >= 1.
+Proof. exact no_lost_wakeup. Qed.
+Print Assumptions C01_accepted_job_is_announced.
+
+Theorem C01_nothing_dispatchable_left_at_rest :
+  forall s, KReachable s -> at_rest s = true -> guard s = false.
+Proof. exact at_rest_nothing_dispatchable. Qed.
+Print Assumptions C01_nothing_dispatchable_left_at_rest.
 
 (* The worker function is entered only on a job that a dispatcher claimed after Dequeue handed
    it out: [EWfEnter] is enabled only in [LClaimed], which only a successful claim by the
